@@ -10,9 +10,21 @@ import (
 	"github.com/philpearl/plenc/null"
 	"github.com/philpearl/plenc/plenccodec"
 
+	"verif/gen"
 	"verif/mc"
 	"verif/ref"
 )
+
+func init() {
+	ref.RegisterNamed("gen.R", reflect.TypeOf(gen.R{}))
+	ref.RegisterNamed("gen.A1", reflect.TypeOf(gen.A1{}))
+	ref.RegisterNamed("gen.B1", reflect.TypeOf(gen.B1{}))
+	ref.RegisterNamed("gen.P", reflect.TypeOf(gen.P{}))
+	ref.RegisterNamed("gen.M", reflect.TypeOf(gen.M{}))
+}
+
+// withRecursive appends the recursive family to a universe.
+func withRecursive(items []ref.Item) []ref.Item { return append(items, ref.Recursive()...) }
 
 // All is the registry of property checks.
 var All = map[string]*mc.Prop{}
